@@ -317,6 +317,9 @@ class TinyDB(DataBase):
             for document in to_check:
                 if self._field_exists(document, nested_fields):
                     return True
+                # message fields (e.g. "cam") live under the record's dataObject
+                if self._field_exists(document, ["dataObject"] + nested_fields):
+                    return True
             return False
 
     def _field_exists(self, document: dict, path: list[str]) -> bool:
